@@ -70,36 +70,32 @@ namespace nmtools::array
             auto numel   = index::product(sizes_);
             // since size may be packed, the proper way to read dim is using len instead of sizes..+1
             auto new_dim = len(sizes_);
+            // validate first, mutate afterwards: a refused resize must leave the array untouched
             if constexpr (meta::is_resizable_v<shape_type>) {
-                shape_.resize(new_dim);
-            }
-            if constexpr (meta::is_resizable_v<buffer_type>) {
-                data_.resize(numel);
-            }
-            auto same_dim   = (size_t)len(shape_) == (size_t)new_dim;
-            auto same_numel = [&](){
-                // NOTE: fixed buffer is used to indicate fixed size
-                // , to use fixed dim dynamic size, use static_vector as buffer
-                #if 0
-                // NOTE: to allow fixed buffer, fixed dim, dynamic shape
-                if (meta::is_resizable_v<buffer_type>) {
-                    // buffer is resizable, can deduce numel from len(data_)
-                    return (size_t)len(data_) == (size_t)numel;
-                } else if (same_dim) {
-                    // same dim and can assign value to shape
-                    return !meta::is_constant_index_array_v<shape_type>;
-                } else {
+                [[maybe_unused]] constexpr auto max_dim = meta::bounded_size_v<shape_type>;
+                if constexpr (!meta::is_fail_v<decltype(max_dim)>) {
+                    if ((size_t)new_dim > (size_t)max_dim) {
+                        return false;
+                    }
+                }
+            } else {
+                if ((size_t)len(shape_) != (size_t)new_dim) {
                     return false;
                 }
-                #else
-                return (size_t)len(data_) == (size_t)numel;
-                #endif
-            }();
-            if (!same_numel) {
-                return false;
             }
-            if (!same_dim) {
-                return false;
+            if constexpr (meta::is_resizable_v<buffer_type>) {
+                [[maybe_unused]] constexpr auto max_numel = meta::bounded_size_v<buffer_type>;
+                if constexpr (!meta::is_fail_v<decltype(max_numel)>) {
+                    if ((size_t)numel > (size_t)max_numel) {
+                        return false;
+                    }
+                }
+            } else {
+                // NOTE: fixed buffer is used to indicate fixed size
+                // , to use fixed dim dynamic size, use static_vector as buffer
+                if ((size_t)len(data_) != (size_t)numel) {
+                    return false;
+                }
             }
             if constexpr (meta::is_clipped_index_array_v<shape_type>) {
                 constexpr auto max_sizes = meta::to_value_v<shape_type>;
@@ -114,6 +110,12 @@ namespace nmtools::array
                         return false;
                     }
                 }
+            }
+            if constexpr (meta::is_resizable_v<shape_type>) {
+                shape_.resize(new_dim);
+            }
+            if constexpr (meta::is_resizable_v<buffer_type>) {
+                data_.resize(numel);
             }
             if constexpr (meta::is_tuple_v<shape_type>) {
                 // this may be the case for clipped_shape
